@@ -272,6 +272,12 @@ def check(P, R):
     for (wf, st) in writers:
         t = [t for t in st.targets if isinstance(t, ast.Subscript)][0]
         sn = wf.cfg.node_of_stmt(st)[0]
+        v_ = T.expand(wf, st.value, sn)
+        own = isinstance(v_, ast.Call) and (dotted(v_.func) or '').split('.')[-1] == 'RouteMethod' and len(v_.args) >= 2 and src(v_.args[1]) == src(t.slice)
+        R.ob('C02.e', wf, st, own, text=f'{short(st)}: each method name gets its own RouteMethod named after it', detail='' if own else
+             f'the entry stored under `{short(t.slice)}` is not a RouteMethod built for that very name (a record shared by several names removes / reports the wrong '
+             f'method: route.methods[\'PATCH\'].remove() drops PUT, and Allow lists a method that is gone)',
+             why='Allow lists exactly the methods registered on that route', key_extra='own-record')
         ok = arg_upper(wf, t.slice, sn)
         R.ob('C02.c', wf, st, ok, detail='' if ok else
              'a method name reaches the route\'s table without having been upper-cased on some registration path '
